@@ -41,6 +41,8 @@ pub fn value_pool(r: &mut SplitMix64, extra: usize) -> Vec<Value> {
     let f64bits = [0u64, 1 << 63, 0x7ff8_0000_0000_0000, 0x7ff8_0000_0000_0001, 0xfff8_0000_0000_0000, 0x7ff0_0000_0000_0001, 0x7ff0_0000_0000_0000, 0xfff0_0000_0000_0000, 1, 0x3ff0_0000_0000_0000];
     for b in f64bits { p.push(f64::from_bits(b).into()); }
     p.push(serde_json::json!({"a": 1, "b": [1, 2]}).into()); p.push(serde_json::json!({"b": [1, 2], "a": 1}).into());
+    for j in [serde_json::json!(0.0), serde_json::json!(-0.0), serde_json::json!(0), serde_json::json!({"a": 0.0}), serde_json::json!({"a": -0.0}), serde_json::json!([0.0, 1]), serde_json::json!([-0.0, 1]),
+        serde_json::json!(1), serde_json::json!(1.0), serde_json::json!({"k": {"n": [{"z": -0.0}]}}), serde_json::json!({"k": {"n": [{"z": 0.0}]}}), serde_json::json!(1e300), serde_json::json!(u64::MAX), serde_json::json!(-1)] { p.push(j.into()); }
     p.push(serde_json::Value::Null.into()); p.push(serde_json::json!("null").into()); p.push(serde_json::json!({"a": 1.0}).into());
     for v in [vec![], vec![0.0f32], vec![-0.0], vec![f32::NAN], vec![1.0, 2.0], vec![1.0, 2.0, 3.0], vec![1.0], vec![f32::from_bits(0xffc0_0000), 2.0]] { p.push(pgvector::Vector::from(v).into()); }
     p.push(Vec::<i32>::new().into()); p.push(Vec::<i64>::new().into()); p.push(vec![1i32].into()); p.push(vec![1i32, 2].into()); p.push(vec![0.0f64].into()); p.push(vec![-0.0f64].into()); p.push(vec![f64::NAN].into());
@@ -64,7 +66,7 @@ pub fn run(ctx: &mut Ctx) {
     let mut r = ctx.rng.fork();
     let pool = value_pool(&mut r, extra);
     let n = pool.len();
-    ctx.rule = format!("pool of {n} values: every variant (one non-NULL, one NULL), NaNs with different payloads and signs, +0/-0, infinities, subnormals for f32 and f64, JSON with permuted keys / null / \"null\", vectors (empty, prefixes, NaN, -0), arrays (empty of two element types, nested with floats), empty and equal strings/bytes, plus {extra} random values; ALL ordered pairs (==, hash with a fixed DefaultHasher, symmetry, variant separation, model agreement) and ALL triples for transitivity; HashSet membership; ValueTuple pairs. Non-trivial = every pair; distinct by pair.");
+    ctx.rule = format!("pool of {n} values: every variant (one non-NULL, one NULL), NaNs with different payloads and signs, +0/-0, infinities, subnormals for f32 and f64, JSON with permuted keys / null / \"null\" / +0.0 and -0.0 at several depths / 1 and 1.0, vectors (empty, prefixes, NaN, -0), arrays (empty of two element types, nested with floats), empty and equal strings/bytes, plus {extra} random values; ALL ordered pairs (==, hash with a fixed DefaultHasher, symmetry, variant separation, model agreement) and ALL triples for transitivity; HashSet membership; ValueTuple: all pairs and triples of ~200 tuples of every shape (One / Two / Three / Many of length 0..4) over ten members (==, hash, reflexive / symmetric / transitive, HashSet lookup). Non-trivial = every pair; distinct by pair.");
     let mut codes: Vec<String> = Vec::new();
     let sx: Vec<String> = pool.iter().map(|v| vsexp(v, &mut codes)).collect();
     let hs: Vec<u64> = pool.iter().map(h).collect();
@@ -104,4 +106,40 @@ pub fn run(ctx: &mut Ctx) {
         if d == ValueTuple::Two(pool[i].clone(), pool[j].clone()) && ht(&d) != ht(&ValueTuple::Two(pool[i].clone(), pool[j].clone())) { ctx.oracle_fail("equal ValueTuples hash differently", serde_json::json!({})); }
         let _ = c;
     } }
+    // value tuples of every shape over a small member pool: equality must be an equivalence and agree with hashing, whatever
+    // the shapes are (One / Two / Three / Many of any length)
+    let members: Vec<Value> = vec![1i32.into(), 1i64.into(), 2i32.into(), Value::Int(None), f64::NAN.into(), 0.0f64.into(), (-0.0f64).into(), "s".into(), serde_json::json!({"a": 1, "b": 2}).into(), serde_json::json!({"b": 2, "a": 1}).into()];
+    let m = members.len();
+    let mut tuples: Vec<ValueTuple> = vec![ValueTuple::Many(vec![])];
+    for a in 0..m {
+        tuples.push(ValueTuple::One(members[a].clone())); tuples.push(ValueTuple::Many(vec![members[a].clone()]));
+        for b in 0..m {
+            if (a + b) % 2 == 1 { continue; }
+            tuples.push(ValueTuple::Two(members[a].clone(), members[b].clone())); tuples.push(ValueTuple::Many(vec![members[a].clone(), members[b].clone()]));
+            let c = (a + 2 * b) % m;
+            tuples.push(ValueTuple::Three(members[a].clone(), members[b].clone(), members[c].clone())); tuples.push(ValueTuple::Many(vec![members[a].clone(), members[b].clone(), members[c].clone()]));
+            if a == b { tuples.push(ValueTuple::Many(vec![members[a].clone(), members[b].clone(), members[c].clone(), members[a].clone()])); }
+        }
+    }
+    let nt = tuples.len();
+    ctx.count(&format!("tuples.{nt}"));
+    let th: Vec<u64> = tuples.iter().map(ht).collect();
+    let mut teq = vec![vec![false; nt]; nt];
+    for i in 0..nt { for j in 0..nt {
+        teq[i][j] = tuples[i] == tuples[j];
+        ctx.eval_only(&format!("vt {i} {j}"), true);
+        if teq[i][j] && th[i] != th[j] { ctx.oracle_fail("equal ValueTuples hash differently", serde_json::json!({"a": format!("{:?}", tuples[i]), "b": format!("{:?}", tuples[j])})); }
+        if i == j && !teq[i][j] { ctx.oracle_fail("ValueTuple equality is not reflexive", serde_json::json!({"a": format!("{:?}", tuples[i])})); }
+    } }
+    for i in 0..nt { for j in 0..nt {
+        if teq[i][j] != teq[j][i] { ctx.oracle_fail("ValueTuple equality is not symmetric", serde_json::json!({"a": format!("{:?}", tuples[i]), "b": format!("{:?}", tuples[j])})); }
+        if !teq[i][j] { continue; }
+        for k in 0..nt { if teq[j][k] && !teq[i][k] { ctx.oracle_fail("ValueTuple equality is not transitive", serde_json::json!({"a": format!("{:?}", tuples[i]), "b": format!("{:?}", tuples[j]), "c": format!("{:?}", tuples[k])})); } }
+    } }
+    // as keys: a map keyed by every tuple finds a key exactly when an equal key was inserted
+    let tset: HashSet<ValueTuple> = tuples.iter().step_by(2).cloned().collect();
+    for (j, t) in tuples.iter().enumerate() {
+        let want = (0..nt).step_by(2).any(|i| teq[i][j]);
+        if tset.contains(t) != want { ctx.oracle_fail("HashSet<ValueTuple> membership disagrees with ==", serde_json::json!({"key": format!("{:?}", t), "found": tset.contains(t), "an_equal_key_was_inserted": want})); }
+    }
 }
